@@ -44,6 +44,8 @@ type Env struct {
 	NetCfg    networkconfig.NetworkConfig
 	// ForeignRSA: a second key, used to produce ciphertexts the node cannot decrypt to anything sensible.
 	ForeignRSA *rsa.PrivateKey
+	// Disk: the one real badger of this process; simulated node databases are namespaces of it (see nsdb.go).
+	Disk *Disk
 }
 
 var blsOnce sync.Once
@@ -76,7 +78,12 @@ func NewEnv() (*Env, error) {
 	if err != nil {
 		return nil, fmt.Errorf("abi: %w", err)
 	}
+	disk, err := NewDisk()
+	if err != nil {
+		return nil, err
+	}
 	return &Env{
+		Disk:   disk,
 		OwnKey: own, OwnRSA: sk, OwnPubB64: pub, EKMHash: h, ABI: abi, ForeignRSA: fk,
 		NetCfg: networkconfig.NetworkConfig{
 			Name:   "verif",
